@@ -110,3 +110,43 @@ def _(self: Obj['rbql_csv.CSVRecordIterator'], query_text: Str) -> VMap:
     raises('rbql_engine.RbqlParsingError', self.has_header and not is_none(self.first_record)
            and vt_fail(query_text, self.variable_prefix, contents(opt_val(self.first_record))), 'unknown_column')
     modifies(fresh_only())
+
+
+# ---------------------------------------------------------------- the sqlite and pandas front ends combine the same parsers
+classdef('rbql_sqlite.SqliteRecordIterator', ghost=dict(names=Seq[Str]))
+
+
+@trusted('rbql_sqlite.SqliteRecordIterator.get_header', trusted='A-DEP: the column names of the table, from cursor.description (sqlite3): the same names at every call')
+def _(self: Obj['rbql_sqlite.SqliteRecordIterator']) -> List[Str]:
+    ensures(is_fresh(result) and contents(result) == self.names, 'the_column_names')
+
+
+@contract('rbql_sqlite.SqliteRecordIterator.get_variables_map', name='C09.vars.sqlite', props=['C09'], store_policy='none')
+def _(self: Obj['rbql_sqlite.SqliteRecordIterator'], query_text: Str) -> VMap:
+    assumes(shapes_disjoint(query_text, self.variable_prefix, self.names), 'A-PARSE-VARS: spellings of different kinds never coincide')
+    local_types(variable_map=VMap)
+    ensures(is_fresh(result), 'a_new_map_per_call')
+    ensures(normalized_vars(result, query_text, self.variable_prefix, self.names), 'every_spelling_over_the_table_columns')
+    raises('rbql_engine.RbqlParsingError', vt_fail(query_text, self.variable_prefix, self.names), 'unknown_column')
+    modifies(fresh_only())
+
+
+classdef('rbql_pandas.DataframeIterator', bases=['rbql_engine.RBQLInputIterator'],
+         fields=dict(normalize_column_names=Bool, variable_prefix=Str, NR=Int, column_names=Opt[List[Str]]))
+
+
+@contract('rbql_pandas.DataframeIterator.get_variables_map', name='C09.vars.pandas', props=['C09'], store_policy='none')
+def _(self: Obj['rbql_pandas.DataframeIterator'], query_text: Str) -> VMap:
+    assumes(implies(not is_none(self.column_names), shapes_disjoint(query_text, self.variable_prefix, contents(opt_val(self.column_names)))), 'A-PARSE-VARS: spellings of different kinds never coincide')
+    assumes(forall(Str, lambda k: not (vb_has(query_text, self.variable_prefix, k) and va_has(query_text, self.variable_prefix, k))), 'A-PARSE-VARS: aN and a[N] never coincide')
+    local_types(variable_map=VMap)
+    ensures(is_fresh(result), 'a_new_map_per_call')
+    ensures(implies(is_none(self.column_names), positional_vars(result, query_text, self.variable_prefix)), 'without_names_only_positional_variables')
+    ensures(implies(not is_none(self.column_names) and self.normalize_column_names,
+                    normalized_vars(result, query_text, self.variable_prefix, contents(opt_val(self.column_names)))), 'with_names_every_spelling')
+    ensures(implies(not is_none(self.column_names) and not self.normalize_column_names,
+                    direct_vars(result, query_text, self.variable_prefix, contents(opt_val(self.column_names)))), 'direct_names_win_over_positional_readings')
+    raises('rbql_engine.RbqlIOHandlingError', not is_none(self.column_names) and not self.normalize_column_names and vm_fail(query_text, contents(opt_val(self.column_names))), 'name_is_not_an_identifier')
+    raises('rbql_engine.RbqlParsingError', not is_none(self.column_names) and self.normalize_column_names
+           and vt_fail(query_text, self.variable_prefix, contents(opt_val(self.column_names))), 'unknown_column')
+    modifies(fresh_only())
